@@ -11,6 +11,7 @@
      refs    after make/custom/align: for every style object the identity of the text a fresh process shows for a style
              with this own history alone, or 0 when the driver took no reference
      fields  after make/custom/align: the attribute values read from every style object (A-layer comparison only)
+     exc     make/custom/align: class of an exception the call raised ("" = none)
      id      for render: identity of the rendered text
      ref     for render: identity of the text that a fresh process shows for an equally built component on an
              equally capable I/O (rendered by the driver in a forked child that has rendered nothing before)
@@ -35,7 +36,8 @@ StyleClauses(e) ==
       all == pts \cup new
       bad == {p \in new : \E q \in all : q.h = p.h /\ q.id # p.id}
              \cup {p \in new : \E s \in 1..Len(styles') : own'[s] = p.h /\ e.refs[s] # 0 /\ e.refs[s] # e.ids[s]}
-  IN /\ Check(tid, l, "H.ids", "", Len(e.ids) = Len(styles') /\ Len(e.refs) = Len(styles'))
+  IN /\ Check(tid, l, "P.noalias", "raised/" \o e.exc, e.exc = "")        \* a factory or setter raised
+     /\ Check(tid, l, "H.ids", "", Len(e.ids) = Len(styles') /\ Len(e.refs) = Len(styles'))
      /\ Check(tid, l, "P.noalias", IF bad = {} THEN "" ELSE (CHOOSE p \in bad : TRUE).kind, bad = {})
      /\ Note(tid, l, "A.heap", e.fields = AllEffective')
      /\ pts' = all /\ rpts' = rpts
